@@ -164,6 +164,13 @@ pub fn catalogue() -> Vec<Deviation> {
             if sub(c).long_flag.is_none() { sub(c).long_flag = Some("sync".into()); }
             sub(c).long_flag_aliases.push("refresh".into());
         }),
+        dev!("opt_possible_values_unicode_help", |c| {
+            o(c).parser = Vp::Pv(vec![
+                PvSpec { name: "s".into(), help: Some("short".into()), ..Default::default() },
+                PvSpec { name: "größe".into(), help: Some("non-ASCII, widest".into()), ..Default::default() },
+                PvSpec { name: "大".into(), help: Some("wide".into()), ..Default::default() },
+            ]);
+        }),
         dev!("opt_possible_values_all_hidden", |c| {
             o(c).parser = Vp::Pv(vec![
                 PvSpec { name: "v".into(), hide: true, help: Some("hidden v".into()), ..Default::default() },
